@@ -116,7 +116,7 @@ func report(p *Program, results []*Result, prop, tier, verif string, loadMs int6
 		intersect := os.Getenv("GOVC_LOCK_INTERSECT") != ""
 		for _, r := range results {
 			// only obligations that discharge well inside the quick budget are claimed
-			if r.Status == "proved" && !r.Vacuity && !r.Bounded && hasProp(r, prop) && r.Millis < 2500 && r.ExecMs < 8000 {
+			if r.Status == "proved" && !r.Vacuity && !r.Bounded && hasProp(r, prop) && r.Millis < lockBudget(r) && r.ExecMs < 8000 {
 				if intersect && !prev[r.Oblig] {
 					continue
 				}
@@ -130,7 +130,7 @@ func report(p *Program, results []*Result, prop, tier, verif string, loadMs int6
 			bprev[n] = true
 		}
 		for _, r := range results {
-			if r.Status == "proved" && !r.Vacuity && r.Bounded && hasProp(r, prop) && r.Millis < 2500 && r.ExecMs < 8000 {
+			if r.Status == "proved" && !r.Vacuity && r.Bounded && hasProp(r, prop) && r.Millis < lockBudget(r) && r.ExecMs < 8000 {
 				if intersect && !bprev[r.Oblig] {
 					continue
 				}
@@ -369,4 +369,12 @@ func seedFromEnv() int {
 	var v int
 	fmt.Sscanf(os.Getenv("VERIF_SEED"), "%d", &v)
 	return v
+}
+
+// lockBudget: an obligation is claimed only when it discharges within a quarter of its solver budget.
+func lockBudget(r *Result) int64 {
+	if r.BudgetMs > 0 {
+		return r.BudgetMs / 4
+	}
+	return 2500
 }
